@@ -174,13 +174,16 @@ def r15c(ctx, rep, rule="R15c"):
     rep.floor(rule, "character lookups by index (Iterator::nth over chars/char_indices) in the string procedures", n, 4)
 
 
-def _payload_arg(fn, op, depth=8):
-    """index of the Option-typed parameter whose Some payload `op` is (following copies and tuple packing), else None"""
+def _payload_root(fn, op, depth=8):
+    """('arg', n) / ('local', l): the Option-typed parameter or multiply-assigned local whose Some payload `op` is
+    (following copies and tuple packing), else None"""
     cur = op
     for _ in range(depth):
         o = fn.origin(cur)
         if o[0] == "arg":
-            return o[1]
+            return ("arg", o[1])
+        if o[0] == "local":
+            return ("local", o[1])
         if o[0] == "rv" and o[1]["rv"]["k"] == "agg" and o[1]["rv"].get("adt") == "(tuple)":
             pj = [e for e in (o[2] or []) if isinstance(e, dict) and "f" in e]
             if pj:
@@ -190,6 +193,46 @@ def _payload_arg(fn, op, depth=8):
                     continue
         return None
     return None
+
+
+def _payload_arg(fn, op, depth=8):
+    r = _payload_root(fn, op, depth)
+    return r[1] if r is not None and r[0] == "arg" else None
+
+
+def compared_before(h, site_bb, root):
+    """every path from entry to site_bb on which the Option variable `root` (('arg', n) / ('local', l)) is Some executes
+    an ordering comparison of its payload; None edges of discriminant switches on it are cut"""
+    V = set()
+    for bb, j, st in h.stmts():
+        rv = st["rv"]
+        if rv["k"] == "bin" and rv["op"] in ("Gt", "Ge", "Lt", "Le"):
+            for a in (rv["a"], rv["b"]):
+                if _payload_root(h, a) == root:
+                    V.add(bb)
+    cut = set()
+    for bb, b in enumerate(h.blocks):
+        t = b["term"]
+        if t["k"] != "switch" or b.get("cleanup"):
+            continue
+        o = h.origin(t["op"])
+        if o[0] == "rv" and o[1]["rv"]["k"] == "disc" and _payload_root(h, {"copy": o[1]["rv"]["place"]}) == root:
+            vals = dict((v, tg) for v, tg in t["targets"])
+            none_t = vals.get(0, t["otherwise"] if 0 not in vals else None)
+            if none_t is not None:
+                cut.add((bb, none_t))
+    seen = {0}
+    st_ = [0]
+    while st_:
+        b0 = st_.pop()
+        if b0 in V:
+            continue
+        for y in h.succ[b0]:
+            if (b0, y) in cut or y in seen:
+                continue
+            seen.add(y)
+            st_.append(y)
+    return site_bb not in seen or site_bb in V
 
 
 def r15d(ctx, rep, rule="R15d"):
